@@ -35,6 +35,8 @@ def build_nodes(cfg, log=True, use_callback=True, dist_override=None) -> Dict[st
             log=log,
             use_callback=use_callback,
         )
+        if n.get("ts_bump"):
+            nodes[n["name"]].ts_bump = n["ts_bump"] / GRID
     for c in cfg["conns"]:
         tag += 1
         dist = GridDist.create(c["cdist"], tag=tag)
